@@ -105,7 +105,16 @@ type ShapeArrLen struct {
 	C [3]byte `hash:"length:5"`
 }
 
+// a group member that is consumed inline (valid, unusual)
+type ShapeGroupInline struct {
+	HashPrefix string
+	A          uint8  `hash:"param:a,group"`
+	V          string `hash:"param:v,group,length:2,inline"`
+	S          string
+}
+
 var handShapes = []reflect.Type{
+	reflect.TypeOf(ShapeGroupInline{}),
 	reflect.TypeOf(ShapeArrLen{}),
 	reflect.TypeOf(ShapeEmbFirst{}), reflect.TypeOf(ShapeEmbLast{}), reflect.TypeOf(ShapeEmbTwo{}), reflect.TypeOf(ShapeEmbDeep{}),
 	reflect.TypeOf(ShapeEmbVal{}), reflect.TypeOf(ShapeEmbPtr{}), reflect.TypeOf(ShapeShadow{}), reflect.TypeOf(ShapeText{}),
